@@ -1854,7 +1854,15 @@ impl<'de, 'e> de::Deserializer<'de> for YamlDeserializer<'de, 'e> {
                         seed.deserialize(deser).map(Some)
                     }
                 }
-                return visitor.visit_seq(ByteSeq { data, idx: 0 });
+                let mut bytes = ByteSeq { data, idx: 0 };
+                let value = visitor.visit_seq(&mut bytes)?;
+                if bytes.idx != bytes.data.len() {
+                    // A fixed-size target (tuple, array) took fewer elements than the payload has:
+                    // surplus bytes are a shape mismatch, never silently dropped.
+                    return Err(Error::unexpected("end of !!binary payload")
+                        .with_location(data_location));
+                }
+                return Ok(value);
             }
         }
         self.expect_seq_start()?;
